@@ -230,11 +230,13 @@ def run():
     for ts, buf in pcap_reader:
         # dpkt yields decimal.Decimal timestamps for pcap files with nanosecond resolution
         ts = float(ts)
-        packet = Packet(buf, ts)
 
         if ts == -1:
+            # decryption secrets block: key log text, not a packet (it must not be parsed as an Ethernet frame)
             keylog.extend(keylog_reader.get_keys_from_string(buf.decode('ascii')))  # adds secrets from decryption secret block to keylog
             continue
+
+        packet = Packet(buf, ts)
 
         if packet.tcp_packet:
             if len(packet.tls_data) == 0:
